@@ -127,6 +127,9 @@ type scenarioC45 struct {
 	Delays    []time.Duration // per pool blob
 	TreeDelay time.Duration
 	Missing   int // pool index of a blob that cannot be loaded, -1: none
+	// TarMustFail: an archived node carries an xattr whose name contains '=', which a
+	// PAX record key cannot hold; the tar dump has to fail rather than alter the name.
+	TarMustFail bool
 }
 
 var namePoolC45 = []string{
@@ -601,6 +604,13 @@ func runC45(outer *testing.T, sc *scenarioC45) (violation string, maxConc int32)
 				}
 				continue
 			}
+			if format == "tar" && sc.TarMustFail {
+				if err == nil {
+					violation = "tar: DumpTree succeeded although an xattr name cannot be represented as a PAX record"
+					return
+				}
+				continue
+			}
 			if err != nil {
 				violation = fmt.Sprintf("%s: DumpTree failed on a loadable tree: %v", format, err)
 				return
@@ -687,6 +697,7 @@ func caseC45(st *verifkit.Stats, outer *testing.T, rt *rapid.T, sc *scenarioC45,
 	add("small-cache", sc.CacheSize < 64<<20)
 	add("concurrent-loads>=2", maxConc >= 2)
 	add("unloadable-blob", sc.Missing >= 0)
+	add("tar-must-fail", sc.TarMustFail)
 	key := ""
 	if sv.multiBlobRepeat > 0 && sv.topSpecial > 0 && sv.nestedSpecial > 0 {
 		var sb strings.Builder
@@ -720,6 +731,24 @@ func TestVerifC45LoadError(t *testing.T) {
 		sc := genScenarioC45(rt)
 		sc.Missing = rapid.IntRange(0, len(sc.Pool)-1).Draw(rt, "missing")
 		caseC45(st, t, rt, &sc, "loaderr:")
+	})
+}
+
+// TestVerifC45UnrepresentableXattr: an xattr name with '=' cannot be a PAX record key.
+// The tar dump must report an error (not write an altered or truncated record); the zip
+// dump, which carries no xattrs, is unaffected.
+func TestVerifC45UnrepresentableXattr(t *testing.T) {
+	st := verifkit.Begin(t, "C45")
+	rapid.Check(t, func(rt *rapid.T) {
+		sc := genScenarioC45(rt)
+		exp := expectC45(&sc, sc.Top, sc.RootPath, nil)
+		if len(exp) == 0 {
+			rt.Skip("nothing to archive")
+		}
+		n := exp[rapid.IntRange(0, len(exp)-1).Draw(rt, "victim")].Node
+		n.Xattrs = append(n.Xattrs, data.ExtendedAttribute{Name: rapid.SampledFrom([]string{"user.k=v", "user.=", "=", "trusted.a=b=c"}).Draw(rt, "xname"), Value: []byte("v")})
+		sc.TarMustFail = true
+		caseC45(st, t, rt, &sc, "xattr=:")
 	})
 }
 
